@@ -619,8 +619,10 @@ theorem c14_im2col_padding_test_layout_independent (size st : Nat) (i : Int) (hs
     exact ⟨Int.mul_nonneg h1 (Int.le_of_lt hstI), Int.mul_le_mul_of_nonneg_right h2 (Int.le_of_lt hstI)⟩
 
 /-- For a stride-0 (broadcast) axis the test accepts every coordinate, padding included: the
-positive-stride hypothesis is necessary — and the real operator does return image values in the
-padding region for such views (open finding C14-conv-broadcast-padding). -/
+positive-stride hypothesis is necessary.  Before fix 4888f23 the real Conv did return image values
+in the padding region for such views (finding C14-conv-broadcast-padding-{h,w}); since the fix
+`conv_impl` copies an input with a zero spatial stride to a contiguous tensor before calling
+`build_im2col` whenever padding is used, so `build_im2col` only sees positive strides there. -/
 theorem c14_im2col_padding_test_fails_for_stride_zero :
     inImage 3 0 ((-1 : Int) * (0 : Nat)) = true ∧ ¬ ((0 : Int) ≤ -1) := by decide
 
